@@ -136,7 +136,7 @@ class RMSE(PredictMetric, ListMetric, DecomposedMetric):
         ps, ts = self.align_scores(output, test)
         err = ps - ts
         err *= err
-        return np.sum(err), len(err)
+        return np.sum(err), err.count()
 
     @override
     def extract_list_metric(self, metric):
@@ -186,7 +186,7 @@ class MAE(PredictMetric, ListMetric, DecomposedMetric):
     def compute_list_data(self, output, test):
         ps, ts = self.align_scores(output, test)
         err = ps - ts
-        return np.sum(np.abs(err)), len(err)
+        return np.sum(np.abs(err)), err.count()
 
     @override
     def extract_list_metric(self, metric):
